@@ -31,7 +31,7 @@ def one(name, a, x, failures):
     return True
 
 def main():
-    ap = argparse.ArgumentParser(); ap.add_argument("--mode"); ap.add_argument("--tier", default="quick"); ap.add_argument("--seed", default="0")
+    ap = argparse.ArgumentParser(); ap.add_argument("--mode"); ap.add_argument("--tier", default="quick"); ap.add_argument("--seed", default="0"); ap.add_argument("--prop", default=None)
     a = ap.parse_args()
     if a.mode == "replay":
         rep = json.load(sys.stdin)
